@@ -19,7 +19,11 @@
 (*  - Element.add_isotope(a) returns the cached isotope or creates it;     *)
 (*  - ions are created on first use by IonSet.__getitem__;                 *)
 (*  - pickle / deepcopy restore through the registry and the same caches;  *)
-(*  - change_table follows the same routes in the other table.             *)
+(*  - change_table follows the same routes in the other table;             *)
+(*  - the caller may drop its reference to a private table and keep only   *)
+(*    atoms: atoms name their table, the registry keeps the table itself   *)
+(*    alive, so restoring and ion / isotope creation from kept atoms go on *)
+(*    working (`held` = tables the caller can still name).                 *)
 (* Every lookup route is a function from the heap to an object id or       *)
 (* "raise".  `act` is an observation variable (the call just made); the    *)
 (* exhaustive configuration hides it with a VIEW, the simulation           *)
@@ -32,8 +36,8 @@ CONSTANTS TabNames,     \* names of private tables that may be created
           IsoOf(_),     \* Z -> isotopes the mass loader creates
           ExtraIso(_),  \* Z -> further mass numbers a caller may add with add_isotope
           IonOf(_)      \* Z -> set of valid charges (never 0)
-VARIABLES heap, registry, massed, last, act
-vars == <<heap, registry, massed, last, act>>
+VARIABLES heap, registry, massed, held, last, act
+vars == <<heap, registry, massed, held, last, act>>
 
 Pub == "public"
 AllTabs == TabNames \cup {Pub}
@@ -47,30 +51,31 @@ MassKeys == {k \in [z : Zs, a : AllIso] : k.a \in IsoOf(k.z)}
 A(op, T, z, a, q, sT) == [op |-> op, T |-> T, z |-> z, a |-> a, q |-> q, sT |-> sT]
 
 Init == /\ heap = {[tab |-> Pub, z |-> k.z, a |-> k.a, q |-> 0, gen |-> 0] : k \in CtorKeys \cup MassKeys}
-        /\ registry = {Pub} /\ massed = {Pub}
+        /\ registry = {Pub} /\ massed = {Pub} /\ held = {Pub}
         /\ last = "init" /\ act = A("import", Pub, 0, 0, 0, "")
 
 \* PeriodicTable(name): refuses a registered name; creates the elements, D and T
 NewTable(T) ==
   /\ act' = A("NewTable", T, 0, 0, 0, "")
   /\ IF T \in registry
-     THEN /\ UNCHANGED <<heap, registry, massed>> /\ last' = "raise"
+     THEN /\ UNCHANGED <<heap, registry, massed, held>> /\ last' = "raise"
      ELSE /\ heap' = heap \cup Alloc(T, CtorKeys)
           /\ registry' = registry \cup {T}
+          /\ held' = held \cup {T}
           /\ UNCHANGED massed
           /\ last' = "ok"
 
 \* mass.init(table): isotopes of the mass table, through add_isotope (existing ones are kept);
 \* a second call returns at once
 LoadMass(T) ==
-  /\ T \in registry
+  /\ T \in held
   /\ act' = A("LoadMass", T, 0, 0, 0, "")
   /\ LET mk == {k \in MassKeys : ~Exists(T, k.z, k.a, 0)}
      IN IF T \in massed THEN UNCHANGED <<heap, massed>> /\ last' = "ok"
         ELSE /\ heap' = heap \cup Alloc(T, mk)
              /\ massed' = massed \cup {T}
              /\ last' = "ok"
-  /\ UNCHANGED registry
+  /\ UNCHANGED <<registry, held>>
 
 \* Element.add_isotope(a): the cached isotope, or a new one
 AddIsotope(T, z, a) ==
@@ -78,13 +83,13 @@ AddIsotope(T, z, a) ==
   /\ act' = A("AddIsotope", T, z, a, 0, "")
   /\ IF Exists(T, z, a, 0) THEN UNCHANGED heap /\ last' = "found"
      ELSE /\ heap' = heap \cup {New(T, z, a, 0)} /\ last' = "created"
-  /\ UNCHANGED <<registry, massed>>
+  /\ UNCHANGED <<registry, massed, held>>
 
 \* element / isotope lookups never create anything
 LookupBase(T, z, a) ==
-  /\ T \in registry
+  /\ T \in held
   /\ act' = A("LookupBase", T, z, a, 0, "")
-  /\ UNCHANGED <<heap, registry, massed>>
+  /\ UNCHANGED <<heap, registry, massed, held>>
   /\ last' = IF Exists(T, z, a, 0) THEN "found" ELSE "raise"
 
 \* IonSet.__getitem__ on element or isotope: base must exist; cache hit, else validate, else create
@@ -95,7 +100,7 @@ GetIon(T, z, a, q) ==
      ELSE IF q # 0 /\ Exists(T, z, a, q) THEN UNCHANGED heap /\ last' = "found"
      ELSE IF q \notin IonOf(z) THEN UNCHANGED heap /\ last' = "raise"      \* including q = 0
      ELSE /\ heap' = heap \cup {New(T, z, a, q)} /\ last' = "created"
-  /\ UNCHANGED <<registry, massed>>
+  /\ UNCHANGED <<registry, massed, held>>
 
 \* pickle.loads(pickle.dumps(o)) / deepcopy(o): __reduce__ names (table, z, a, q); _make_* resolves
 \* through the registry and the caches.  (Objects are never removed, so the object is found again.)
@@ -103,28 +108,37 @@ Restore(o) ==
   /\ act' = A("Restore", o.tab, o.z, o.a, o.q, "")
   /\ IF o.tab \notin registry \/ ~Exists(o.tab, o.z, o.a, o.q)
      THEN last' = "raise" ELSE last' = "found"
-  /\ UNCHANGED <<heap, registry, massed>>
+  /\ UNCHANGED <<heap, registry, massed, held>>
 
 \* change_table(atom, table2): the atom with the same Z, A, charge in table2; the base must exist there,
 \* the ion is created on demand
 ChangeTable(o, T2) ==
-  /\ T2 \in registry
+  /\ T2 \in held
   /\ act' = A("ChangeTable", T2, o.z, o.a, o.q, o.tab)
   /\ IF ~Exists(T2, o.z, o.a, 0) THEN UNCHANGED heap /\ last' = "raise"
      ELSE IF Exists(T2, o.z, o.a, o.q) THEN UNCHANGED heap /\ last' = "found"
      ELSE /\ heap' = heap \cup {New(T2, o.z, o.a, o.q)} /\ last' = "created"
-  /\ UNCHANGED <<registry, massed>>
+  /\ UNCHANGED <<registry, massed, held>>
+
+\* the caller forgets a private table (del table; gc) but keeps its atoms; the public table is a module global
+DropTable(T) ==
+  /\ T \in held /\ T # Pub
+  /\ act' = A("DropTable", T, 0, 0, 0, "")
+  /\ held' = held \ {T}
+  /\ last' = "ok"
+  /\ UNCHANGED <<heap, registry, massed>>
 
 Charges == UNION {IonOf(z) : z \in Zs} \cup {0, 9}
 Next == \/ \E T \in AllTabs : NewTable(T)
         \/ \E T \in AllTabs : LoadMass(T)
+        \/ \E T \in AllTabs : DropTable(T)
         \/ \E T \in AllTabs, z \in Zs : \E a \in CtorIso(z) \cup IsoOf(z) \cup ExtraIso(z) : AddIsotope(T, z, a)
         \/ \E T \in AllTabs, z \in Zs \cup {-1, 999}, a \in AllIso \cup {0, 777} : LookupBase(T, z, a)
         \/ \E T \in AllTabs, z \in Zs, a \in AllIso \cup {0}, q \in Charges : GetIon(T, z, a, q)
         \/ \E o \in heap : Restore(o)
         \/ \E o \in heap, T2 \in AllTabs : ChangeTable(o, T2)
 Spec == Init /\ [][Next]_vars
-NoAct == <<heap, registry, massed, last>>     \* VIEW of the exhaustive configuration
+NoAct == <<heap, registry, massed, held, last>>     \* VIEW of the exhaustive configuration
 
 \* ---- properties ------------------------------------------------------------
 OneObjectPerKey == \A o1, o2 \in heap : (o1.tab = o2.tab /\ o1.z = o2.z /\ o1.a = o2.a /\ o1.q = o2.q) => o1 = o2
@@ -133,6 +147,8 @@ FieldsValid == \A o \in heap : /\ o.tab \in registry /\ o.z \in Zs
                                /\ (o.q = 0 \/ o.q \in IonOf(o.z))
                                /\ (o.q # 0 => Exists(o.tab, o.z, o.a, 0))           \* an ion's base is in the same table
 MassedHasIsotopes == \A T \in massed, k \in MassKeys : Exists(T, k.z, k.a, 0)
+HeldIsRegistered == held \subseteq registry
+RegistryIsForever == [][registry \subseteq registry']_vars
 RegisteredHasElements == \A T \in registry, z \in Zs : Exists(T, z, 0, 0)
 ObjectsAreForever == [][heap \subseteq heap']_vars
 FailureCreatesNothing == [][last' = "raise" => heap' = heap]_vars
